@@ -4,8 +4,8 @@
    jv      a decoded document: JSON value, or a decoded Avro record (dict / list / str / int / None);
            JOther = a value of a type the model does not look into (float, bytes): not a string, not iterable,
            not subscriptable.
-   shape   what a piece of reader code does with a value, read off the source by translator/gen_meta.py
-           (Gen/GenMeta.v; MetadataManager._dict_to_metadata and the record loops of
+   shape   what a piece of reader code does with a value, read off the source by translator/gen_doc.py
+           (Gen/GenDoc.v; MetadataManager._dict_to_metadata and the record loops of
            FileManager.read_manifest_list_file):
              SAny            the value is passed on as it is (any value, None included, is accepted)
              SStr            `if not isinstance(v, str): raise`
